@@ -258,6 +258,7 @@ func (r *rcv) shutdown() error {
 
 type expKey struct {
 	transport, compression string
+	level                  int // compression_params.level (HTTP exporter; 0 = not set)
 	auth                   bool
 	cred                   string
 	signal                 string
@@ -362,8 +363,18 @@ func (e *env) exporter(k expKey) (sendFunc, error) {
 	if s, ok := e.exps[k]; ok {
 		return s, nil
 	}
+	send, stop, err := buildExporter(k, e.rcv(k.auth))
+	if err != nil {
+		return nil, err
+	}
+	e.shutdown = append(e.shutdown, stop)
+	e.exps[k] = send
+	return send, nil
+}
+
+// buildExporter creates and starts one exporter aimed at receiver r.
+func buildExporter(k expKey, r *rcv) (sendFunc, func(context.Context) error, error) {
 	ctx := context.Background()
-	r := e.rcv(k.auth)
 	var f exporter.Factory
 	var cfg component.Config
 	switch k.transport {
@@ -378,7 +389,7 @@ func (e *env) exporter(k expKey) (sendFunc, error) {
 		c.RetryConfig.Enabled = false
 		c.TimeoutConfig.Timeout = 60 * time.Second
 		if err := c.Validate(); err != nil {
-			return nil, err
+			return nil, nil, err
 		}
 		cfg = c
 	case trHTTPProto, trHTTPJSON:
@@ -389,6 +400,7 @@ func (e *env) exporter(k expKey) (sendFunc, error) {
 			c.ClientConfig.Endpoint = k.endpoint
 		}
 		c.ClientConfig.Compression = configcompression.Type(k.compression)
+		c.ClientConfig.CompressionParams = configcompression.CompressionParams{Level: configcompression.Level(k.level)}
 		c.ClientConfig.Headers = credHeader(k.cred)
 		c.ClientConfig.Timeout = 60 * time.Second
 		c.QueueConfig.Enabled = false
@@ -398,11 +410,14 @@ func (e *env) exporter(k expKey) (sendFunc, error) {
 			c.Encoding = otlphttpexporter.EncodingJSON
 		}
 		if err := c.Validate(); err != nil {
-			return nil, err
+			return nil, nil, err
+		}
+		if err := c.ClientConfig.Validate(); err != nil { // (what component validation would run: compression params)
+			return nil, nil, err
 		}
 		cfg = c
 	default:
-		return nil, fmt.Errorf("unknown transport %q", k.transport)
+		return nil, nil, fmt.Errorf("unknown transport %q", k.transport)
 	}
 	set := exportertest.NewNopSettings(f.Type())
 	var comp component.Component
@@ -411,40 +426,38 @@ func (e *env) exporter(k expKey) (sendFunc, error) {
 	case sig.Logs:
 		x, err := f.CreateLogs(ctx, set, cfg)
 		if err != nil {
-			return nil, err
+			return nil, nil, err
 		}
 		comp, send = x, func(ctx context.Context, v any) error { return x.ConsumeLogs(ctx, v.(plog.Logs)) }
 	case sig.Traces:
 		x, err := f.CreateTraces(ctx, set, cfg)
 		if err != nil {
-			return nil, err
+			return nil, nil, err
 		}
 		comp, send = x, func(ctx context.Context, v any) error { return x.ConsumeTraces(ctx, v.(ptrace.Traces)) }
 	case sig.Metrics:
 		x, err := f.CreateMetrics(ctx, set, cfg)
 		if err != nil {
-			return nil, err
+			return nil, nil, err
 		}
 		comp, send = x, func(ctx context.Context, v any) error { return x.ConsumeMetrics(ctx, v.(pmetric.Metrics)) }
 	case sig.Profiles:
 		xf, ok := f.(xexporter.Factory)
 		if !ok {
-			return nil, errors.New("exporter factory does not offer profiles")
+			return nil, nil, errors.New("exporter factory does not offer profiles")
 		}
 		x, err := xf.CreateProfiles(ctx, set, cfg)
 		if err != nil {
-			return nil, err
+			return nil, nil, err
 		}
 		comp, send = x, func(ctx context.Context, v any) error { return x.ConsumeProfiles(ctx, v.(pprofile.Profiles)) }
 	default:
-		return nil, fmt.Errorf("unknown signal %q", k.signal)
+		return nil, nil, fmt.Errorf("unknown signal %q", k.signal)
 	}
 	if err := comp.Start(ctx, componenttest.NewNopHost()); err != nil {
-		return nil, err
+		return nil, nil, err
 	}
-	e.shutdown = append(e.shutdown, comp.Shutdown)
-	e.exps[k] = send
-	return send, nil
+	return send, comp.Shutdown, nil
 }
 
 // ---------------------------------------------------------------------------
